@@ -144,8 +144,8 @@ def _run(case, work):
             if "again" in step["flags"]:
                 labels.add("again")
             res = run_cond(root, argv, kspec=kspec, inject=inject)
-            if res["status"] == "deadlock":
-                v.append(("deadlock", "step %d" % si))
+            if res["status"] in ("deadlock", "livelock"):
+                v.append((res["status"], "step %d (%s at clock %g): cond run never returns: %s" % (si, " ".join(argv[1:]), clock, res.get("detail"))))
                 break
             execs = [e for e in res["events"] if e["e"] == "spawn" and kind_of.get(e["task"]) == "exp"]
             lf = [e for e in res["events"] if e["e"] == "launchfail" and kind_of.get(e["task"]) == "exp" and e.get("pid") is None]
